@@ -1269,6 +1269,19 @@ func runK4Spec(c *Ctx, sp k4spec) {
 			if w == "NONNIL" && got != "nil" && got != "?" {
 				continue
 			}
+			if strings.HasPrefix(w, "≈") {
+				// numeric result, equal to within 2 ulps (the correctly rounded value of an
+				// irrational result is not unique to one formula)
+				var wv, gv float64
+				if _, err := fmt.Sscan(strings.TrimPrefix(w, "≈"), &wv); err == nil {
+					if _, err := fmt.Sscan(got, &gv); err == nil {
+						ulp := math.Nextafter(math.Abs(wv), math.Inf(1)) - math.Abs(wv)
+						if math.Abs(gv-wv) <= 2*ulp {
+							continue
+						}
+					}
+				}
+			}
 			if got != w {
 				mismatch = fmt.Sprintf("for the model %s the function returns %s but the definition (%s) gives %s", modelString(m), got, sp.what, w)
 				return false
